@@ -54,7 +54,7 @@ theorem dec_canon (n : Nat) : Canon (dec n) := by
       simp only [allDigits, List.all_cons, Bool.and_eq_true] at hd
       exact ⟨_, _, rfl, hd.1, by omega, hd.2⟩
 
-theorem isDigit_iff (c : Nat) : isDigit c = true ↔ 48 ≤ c ∧ c ≤ 57 := by
+theorem isDigit_range (c : Nat) : isDigit c = true ↔ 48 ≤ c ∧ c ≤ 57 := by
   simp only [isDigit, Bool.and_eq_true, decide_eq_true_eq]
 
 /-- `prepareNumber` collects the digits and skips the single spaces between them -/
@@ -66,7 +66,7 @@ theorem prepareNumber_withSeps (cond : Nat → Bool) (ds : Bytes) (i : Nat) (res
   | cons d ds ih =>
     simp only [allDigits, List.all_cons, Bool.and_eq_true] at hd
     have hdig := hd.1
-    have hd' := (isDigit_iff d).1 hd.1
+    have hd' := (isDigit_range d).1 hd.1
     have h32 : d ≠ 32 := by omega
     have h95 : d ≠ 95 := by omega
     have step : ∀ t, prepareNumber (d :: t) n = prepareNumber t (d :: n) := by
@@ -256,5 +256,130 @@ theorem marshalJSON_length (c : MarshalCfg) (s : Nat) (hs : s < two64) : (marsha
     · have := marshalText_length c s hs
       simp only [List.length_append, List.length_cons, List.length_nil]; omega
     · have := dec_lt_two64_length s hs; omega
+
+/-! ## JSON forms -/
+
+theorem ruleText : Rule.ofNat (Gen.size_DefaultRule &&& Gen.size_ruleUnmarshalTextMask) = ⟨false, false, false, false⟩ := by decide
+theorem ruleJSON : Rule.ofNat Gen.size_DefaultRule = ⟨false, true, true, false⟩ := by decide
+
+theorem expectEOF_nil (st : TState) (stk : List TState) : expectEOF ⟨[], st, stk⟩ = .ok () := by
+  unfold expectEOF; rw [token_eof]
+
+/-! ### number form -/
+theorem unmarshalJSON_number (maxKeys : Nat) (r : Rule) (s : Nat) (hs : s < two64) :
+    unmarshalJSON maxKeys r (dec s) = .ok s := by
+  have ht : (Dec.init (dec s)).token = .ok (.num (dec s), ⟨[], .topValue, []⟩) := by
+    have := tokenF_num (dec s).length (dec s) [] .topValue [] rfl (dec_canon s) rfl
+    simpa [Dec.token, Dec.init, valueEnd] using this
+  unfold unmarshalJSON
+  rw [ht]
+  simp only [expectEOF_nil, Outcome.bind, unmarshalText_dec false s hs]
+
+/-! ### string form -/
+theorem digits_plain (ds : Bytes) (h : allDigits ds = true) : ds.all plainByte = true := by
+  simp only [allDigits, List.all_eq_true] at h ⊢
+  intro c hc
+  have := (isDigit_range c).1 (h c hc)
+  simp only [plainByte, Bool.and_eq_true, decide_eq_true_eq, bne_iff_ne]; omega
+
+theorem unit_plain (u : Bytes) (hu : u ∈ binUnits) : u.all plainByte = true := by
+  simp only [binUnits, List.mem_cons, List.mem_nil_iff, or_false] at hu
+  rcases hu with rfl | rfl | rfl | rfl | rfl | rfl | rfl <;> decide
+
+theorem marshalText_plain (c : MarshalCfg) (s : Nat) (hs : s < two64) : (marshalText c s).all plainByte = true := by
+  unfold marshalText
+  split
+  · exact digits_plain _ (allDigits_dec s)
+  · rw [format_plain, List.all_append, digits_plain _ (allDigits_dec _), unit_plain _ (shorten_newSize s hs).2.1]; rfl
+
+theorem unmarshalJSON_string (maxKeys : Nat) (r : Rule) (hr : r.jsonString = true) (body : Bytes)
+    (hb : body.all plainByte = true) :
+    unmarshalJSON maxKeys r (34 :: body ++ [34]) = unmarshalText false body := by
+  have ht : (Dec.init (34 :: body ++ [34])).token = .ok (.str body, ⟨[], .topValue, []⟩) := by
+    have := tokenF_str (34 :: body ++ [34]).length body [] .topValue [] rfl hb
+    simpa [Dec.token, Dec.init, valueEnd] using this
+  unfold unmarshalJSON
+  rw [ht]
+  simp only [hr, Bool.not_true, Bool.false_eq_true, if_false, expectEOF_nil, Outcome.bind]
+
+
+theorem parseUintLit_canon (ds : Bytes) (h : Canon ds) (hv : val ds < two64) : parseUintLit ds = .ok (val ds) := by
+  obtain ⟨c, t, rfl, _⟩ := h.head
+  unfold parseUintLit
+  rw [h.allDigits]
+  simp only [List.isEmpty_cons, Bool.not_true, Bool.or_self, Bool.false_eq_true, if_false]
+  rw [if_neg (by omega)]
+
+/-- text after the opening brace of the object form -/
+def objTail (ds u : Bytes) : Bytes :=
+  34 :: (Gen.size_ObjectKeyValue ++ 34 :: 58 :: (ds ++ 44 :: 34 :: (Gen.size_ObjectKeyUnit ++ 34 :: 58 :: 34 :: (u ++ [34, 125]))))
+
+theorem objForm (ds u : Bytes) :
+    Gen.size_jsonObjOpen ++ ds ++ Gen.size_jsonObjMid ++ u ++ Gen.size_jsonObjClose = 123 :: objTail ds u := by
+  simp [Gen.size_jsonObjOpen, Gen.size_jsonObjMid, Gen.size_jsonObjClose, objTail, Gen.size_ObjectKeyValue, Gen.size_ObjectKeyUnit]
+
+/-- the member loop on `"value":V,"unit":"U"}` -/
+theorem objectLoop_pair (maxKeys : Nat) (hk : maxKeys = 0 ∨ 2 ≤ maxKeys) (du : Bool) (f : Nat)
+    (ds u : Bytes) (stk : List TState) (hds : Canon ds) (hv : val ds < two64) (hu : u.all plainByte = true) :
+    objectLoop maxKeys du (f + 3) 0 ⟨objTail ds u, .objectStart, stk⟩ none none =
+      (newSize (val ds) u).map (·, ⟨[125], .objectComma, stk⟩) := by
+  have kv : Gen.size_ObjectKeyValue.all plainByte = true := by decide
+  have ku : Gen.size_ObjectKeyUnit.all plainByte = true := by decide
+  have lv : (lowerKey Gen.size_ObjectKeyValue == Gen.size_ObjectKeyValue) = true := by decide
+  have lu1 : (lowerKey Gen.size_ObjectKeyUnit == Gen.size_ObjectKeyValue) = false := by decide
+  have lu2 : (lowerKey Gen.size_ObjectKeyUnit == Gen.size_ObjectKeyUnit) = true := by decide
+  have g0 : ¬ (maxKeys ≠ 0 ∧ 0 > maxKeys) := by omega
+  have g1 : ¬ (maxKeys ≠ 0 ∧ 0 + 1 > maxKeys) := by omega
+  have g2 : ¬ (maxKeys ≠ 0 ∧ 0 + 1 + 1 > maxKeys) := by omega
+  unfold objTail
+  -- first member: "value": V
+  rw [objectLoop, if_neg g0, more_cons _ _ _ _ (by decide), token_key _ _ _ kv]
+  simp only [lv, if_true, decodeValue]
+  rw [token_colon_num ds _ _ hds rfl]
+  simp only [parseUintLit_canon ds hds hv, Outcome.map]
+  -- second member: ,"unit": "U"
+  rw [objectLoop, if_neg g1, more_cons _ _ _ _ (by decide), token_comma_key _ _ _ ku]
+  simp only [lu1, lu2, if_true, decodeUnit]
+  rw [token_colon_str u _ _ hu]
+  simp only
+  -- closing brace
+  rw [objectLoop, if_neg g2, more_cons _ _ _ _ (by decide)]
+  simp [newOrError]
+  rfl
+
+theorem unmarshalJSON_object (maxKeys : Nat) (hk : maxKeys = 0 ∨ 2 ≤ maxKeys) (r : Rule) (hr : r.jsonObject = true)
+    (ds u : Bytes) (n : Nat) (hds : Canon ds) (hv : val ds < two64) (hu : u.all plainByte = true)
+    (hn : newSize (val ds) u = .ok n) :
+    unmarshalJSON maxKeys r (Gen.size_jsonObjOpen ++ ds ++ Gen.size_jsonObjMid ++ u ++ Gen.size_jsonObjClose) = .ok n := by
+  rw [objForm]
+  unfold unmarshalJSON
+  rw [Dec.init, token_open _ _ _ rfl]
+  simp only [bne_self_eq_false, Bool.false_eq_true, if_false, hr, Bool.not_true]
+  rw [show (123 :: objTail ds u).length + 2 = (objTail ds u).length + 3 from rfl,
+    objectLoop_pair maxKeys hk _ _ ds u _ hds hv hu, hn]
+  simp only [Outcome.map]
+  rw [token_close]
+  simp only [valueEnd, expectEOF_nil]
+
+theorem unmarshalJSON_marshalJSONObject (maxKeys : Nat) (hk : maxKeys = 0 ∨ 2 ≤ maxKeys) (r : Rule)
+    (hr : r.jsonObject = true) (s : Nat) (hs : s < two64) :
+    unmarshalJSON maxKeys r (marshalJSONObject s) = .ok s := by
+  obtain ⟨h1, h2, h3⟩ := shorten_newSize s hs
+  have e : marshalJSONObject s = Gen.size_jsonObjOpen ++ dec (shorten s).1 ++ Gen.size_jsonObjMid ++ (shorten s).2 ++
+      Gen.size_jsonObjClose := rfl
+  rw [e]
+  exact unmarshalJSON_object maxKeys hk r hr (dec (shorten s).1) (shorten s).2 s (dec_canon _) (by rw [val_dec]; omega)
+    (unit_plain _ h2) (by rw [val_dec]; exact h3)
+
+theorem unmarshalJSON_marshalJSON (maxKeys : Nat) (hk : maxKeys = 0 ∨ 2 ≤ maxKeys) (r : Rule)
+    (hro : r.jsonObject = true) (hrs : r.jsonString = true) (c : MarshalCfg) (s : Nat) (hs : s < two64) :
+    unmarshalJSON maxKeys r (marshalJSON c s) = .ok s := by
+  unfold marshalJSON
+  split
+  · exact unmarshalJSON_marshalJSONObject maxKeys hk r hro s hs
+  · split
+    · rw [unmarshalJSON_string maxKeys r hrs _ (marshalText_plain c s hs)]
+      exact unmarshalText_marshalText c s hs
+    · exact unmarshalJSON_number maxKeys r s hs
 
 end U.Size
